@@ -49,6 +49,7 @@ type OpInst struct {
 	Name      string
 	Key       string
 	Argv      []string
+	Launcher  []string // launcher words (nice -n 10, env, ...) the shell received in front of Argv
 	Cwd       string
 	Inputs    []string // as written on the command line, in order (incl. joined members)
 	InAbs     []string
@@ -222,6 +223,7 @@ type shellRun struct {
 	script string
 	// `set -e` / `set -o pipefail`
 	errexit, pipefail bool
+	launcher          []string // launcher words stripped from the current simple command
 }
 
 // Exec runs a `bash -c` script. It returns combined output and an error for a
@@ -308,6 +310,7 @@ func (r *shellRun) simple(w []string, redir, redirTo string) (int, string) {
 	status := 0
 	signal := ""
 	// launcher words in front of a command (scipipe's Prepend): run the rest
+	full := w
 	for len(w) > 1 {
 		switch w[0] {
 		case "nice":
@@ -322,6 +325,7 @@ func (r *shellRun) simple(w []string, redir, redirTo string) (int, string) {
 		}
 		break
 	}
+	r.launcher = append([]string(nil), full[:len(full)-len(w)]...)
 	switch w[0] {
 	case "cd":
 		if len(w) < 2 {
@@ -641,7 +645,7 @@ func relToWork(abs string) string {
 
 func (sh *Shell) parseOp(r *shellRun, w []string) *OpInst {
 	s := sh.s
-	o := &OpInst{Seq: len(sh.Insts), Argv: append([]string(nil), w...), Cwd: r.cwd, Chunks: 1, Written: map[string]bool{}}
+	o := &OpInst{Seq: len(sh.Insts), Argv: append([]string(nil), w...), Launcher: r.launcher, Cwd: r.cwd, Chunks: 1, Written: map[string]bool{}}
 	if len(w) < 2 {
 		s.HarnessFail("op: missing name")
 	}
